@@ -18,6 +18,7 @@ from ..toolapi import materialise, to_coco, from_coco, parse_listing
 from ..world import World, HarnessError
 
 FILL_ORDERS = ["default", "identity", "reversed", "outward", "random"]
+BLANK = bytes(RD.blank())
 
 
 def fill_order(desc):
@@ -138,6 +139,9 @@ class DiskProp(object):
                     "convention": rng.choice(["decb", "tool"])}
 
         if profile == "tool_only":
+            if rng.chance(0.15):
+                ops.append({"op": "tool_add", "file": fd()})
+                ops.append({"op": "tool_new_disk"})
             for _ in range(rng.weighted([(1, 2), (2, 4), (3, 4), (4, 2), (6, 1), (8, 1)])):
                 ops.append({"op": "tool_add", "file": fd()})
                 if rng.chance(0.25):
@@ -170,6 +174,9 @@ class DiskProp(object):
                     ops.append({"op": kind})
         else:  # medium_full: drive the image to exhaustion
             style = rng.choice(["small", "large", "mixture", "peer_prefill"])
+            if rng.chance(0.15):
+                ops.append({"op": "tool_add", "file": fd()})
+                ops.append({"op": "tool_new_disk"})
             if style == "peer_prefill":
                 for _ in range(rng.randint(2, 10)):
                     f = fd(max_granules=12)
@@ -217,11 +224,18 @@ class DiskProp(object):
         if order is not None:
             res.stats["fault:fill_order"] += 1
         st = {"img": bytes(RD.blank()), "cont": None, "model": {}, "tool_only": True, "restarted": False,
-              "baseline": None, "tool_ops": 0}
+              "baseline": None, "tool_ops": 0, "pristine": True}
 
         def container():
             if st["cont"] is None:
-                st["cont"] = DiskFile(buffer=list(st["img"]), granule_fill_order=order)
+                if st["pristine"] and not st["model"] and st["img"] == BLANK:
+                    # the very first container of a run is the tool's own empty disk (DiskFile() without a buffer)
+                    st["cont"] = DiskFile(granule_fill_order=order)
+                    if bytes(bytearray(st["cont"].get_buffer())) != st["img"]:
+                        res.violate("NEW-DISK-NOT-BLANK", "a newly created disk is not freshly formatted", 0)
+                else:
+                    st["cont"] = DiskFile(buffer=list(st["img"]), granule_fill_order=order)
+            st["pristine"] = False
             return st["cont"]
 
         def model_list():
@@ -255,6 +269,7 @@ class DiskProp(object):
                         outcome = "peer_full"
                     st["cont"] = None
                     st["tool_only"] = False
+                    st["pristine"] = False
                     w.log.add("PEER", "save", outcome, hashlib.sha256(st["img"]).hexdigest()[:16])
                 elif kind == "peer_kill":
                     live = sorted(st["model"])
@@ -280,6 +295,19 @@ class DiskProp(object):
                     st["cont"] = None
                     st["restarted"] = True
                     w.log.add("RESTART", hashlib.sha256(st["img"]).hexdigest()[:16])
+                elif kind == "tool_new_disk":
+                    # a second empty disk created by the tool in the same process: it must be freshly formatted
+                    # (all 68 granules and 72 slots free), whatever was done to other disks before
+                    fresh = DiskFile(granule_fill_order=order)
+                    img = bytes(bytearray(fresh.get_buffer()))
+                    if img != bytes(RD.blank()):
+                        k0 = next((i for i in range(min(len(img), RD.IMAGE_SIZE)) if img[i] != 0xFF), len(img))
+                        res.violate("NEW-DISK-NOT-BLANK", "a newly created disk is not freshly formatted: %d bytes, first difference at offset %d; %d free granules" % (
+                            len(img), k0, len(RD.free_granules(img)) if len(img) == RD.IMAGE_SIZE else -1), k)
+                    else:
+                        res.stats["probe:second_new_disk_in_same_process_is_blank"] += 1
+                    st["img"], st["cont"], st["model"], st["tool_only"], st["baseline"] = img, fresh, {}, True, None
+                    outcome = "new"
                 elif kind == "live_list":
                     # list on the live container object (no restart), then keep writing to the same object
                     cont = container()
